@@ -100,7 +100,7 @@ def run_job(env, spec):
         if M is not None:
             bounds[key] = (-M + 1, M - 1)
     sysm = Sys(env.P, len(tS.pub), len(tS.priv), tS.cons, fixed, tag="w", bounds=bounds)
-    enc = sysm.encode()
+    enc = sysm.encode(skip_fixed=False)     # no honest witness for rejected operands: every constraint counts
     twin_done = False
     for t in rejected:
         pi = t.extra["idx"]
